@@ -91,6 +91,22 @@ Theorem C13_fungible_hook_never_blocks : forall (h : header) (U : list addr) (cs
 Proof. exact fungible_hook_never_blocks_final. Qed.
 Print Assumptions C13_fungible_hook_never_blocks.
 
+(* The same for the NFT contract: whenever Base::update (n_update) succeeded, the
+   transfer_voting_units(.., 1) appended by NonFungibleVotes succeeds - for a mint unless the u128
+   vote supply itself is exhausted. *)
+Theorem C13_nft_hook_never_blocks : forall (h : header) (U : list addr) (cs : list (list addr * call)),
+  0 <= h_start h -> NoDup U ->
+  (forall ac, In ac cs -> forall a, In a (call_addrs (snd ac)) -> In a U) ->
+  let s := run h (init h) cs in
+  s_now s + 2 <= MAXU32 ->
+  forall from to id s1,
+    (forall a, from = Some a \/ to = Some a -> In a U) ->
+    n_update s from to id = Ok s1 ->
+    (from = None -> forall y, get_total_supply (s_v s) = Ok y -> y + 1 <= MAXU128) ->
+    exists s2, tvu s1 from to 1 = Ok s2.
+Proof. exact nft_hook_never_blocks_final. Qed.
+Print Assumptions C13_nft_hook_never_blocks.
+
 (* For the fungible wrapper, the real example contract and the NFT wrapper alike: units = balance. *)
 Theorem C13_units_eq_balance : forall (h : header) (cs : list (list addr * call)),
   0 <= h_start h ->
@@ -188,9 +204,11 @@ Theorem C13_future_refused : forall now s a q, now <= q ->
 Proof. exact future_refused. Qed.
 Print Assumptions C13_future_refused.
 
-(* The executable monitor (Run/C13.v: the property as a boolean over observations only) accepts
-   every run of the model, and the model agrees with itself; [wf_input] only asks that the
-   accounts named by the calls are among the observed ones. *)
+(* The executable monitor (Run/C13.v: the property as a boolean over observations only - the sums,
+   units = balance, sorted checkpoints, exact and immutable past with its own ghost history, refused
+   future, "an Advance of any length or a failing call changes no getter", "a delegatee changes only
+   by the account's own successful delegate call") accepts every run of the model, and the model
+   agrees with itself; [wf_input] only asks that the accounts named by the calls are observed. *)
 Theorem C13_monitor_accepts_model : forall (h : header) (ins : list input),
   wf_header h = true -> forallb (wf_input (h_n h)) ins = true ->
   check (observe_model h ins) = (0%N, 0%N, 0%N).
@@ -301,11 +319,11 @@ Proof. vm_compute. reflexivity. Qed.
 Example C13_monitor_rejects_rewritten_past :
   snd (fst (check (bad_h,
     [([], Mint 0%N 5, Ok 0,
-      mkO 0 [mkA 5 5 (Some 0%N) 5 [(0, 5)]; mkA 0 0 None 0 []] 5 5 [(0, 5)] [] [(0, [None; None; None])]);
+      mkO 0 [mkA 5 5 None 0 []; mkA 0 0 None 0 []] 5 5 [(0, 5)] [] [(0, [None; None; None])]);
      ([], Advance 1, Ok 0,
-      mkO 1 [mkA 5 5 (Some 0%N) 5 [(0, 5)]; mkA 0 0 None 0 []] 5 5 [(0, 5)] [] [(0, [Some 5; Some 0; Some 5])]);
+      mkO 1 [mkA 5 5 None 0 []; mkA 0 0 None 0 []] 5 5 [(0, 5)] [] [(0, [Some 0; Some 0; Some 5])]);
      ([], Advance 1, Ok 0,
-      mkO 2 [mkA 5 5 (Some 0%N) 5 [(0, 5)]; mkA 0 0 None 0 []] 5 5 [(0, 5)] [] [(0, [Some 7; Some 0; Some 5]); (1, [Some 5; Some 0; Some 5])])
+      mkO 2 [mkA 5 5 None 0 []; mkA 0 0 None 0 []] 5 5 [(0, 5)] [] [(0, [Some 0; Some 0; Some 7]); (1, [Some 0; Some 0; Some 5])])
     ]))) = 3%N.
 Proof. vm_compute. reflexivity. Qed.
 
@@ -313,13 +331,13 @@ Proof. vm_compute. reflexivity. Qed.
 Example C13_monitor_rejects_wrong_ledger :
   snd (fst (check (bad_h,
     [([], Mint 0%N 5, Ok 0,
-      mkO 0 [mkA 5 5 (Some 0%N) 5 [(0, 5)]; mkA 0 0 None 0 []] 5 5 [(0, 5)] [] []);
+      mkO 0 [mkA 5 5 None 0 []; mkA 0 0 None 0 []] 5 5 [(0, 5)] [] []);
      ([], Advance 1, Ok 0,
-      mkO 1 [mkA 5 5 (Some 0%N) 5 [(0, 5)]; mkA 0 0 None 0 []] 5 5 [(0, 5)] [] []);
+      mkO 1 [mkA 5 5 None 0 []; mkA 0 0 None 0 []] 5 5 [(0, 5)] [] []);
      ([], Mint 0%N 3, Ok 0,
-      mkO 1 [mkA 8 8 (Some 0%N) 8 [(0, 5); (1, 8)]; mkA 0 0 None 0 []] 8 8 [(0, 5); (1, 8)] [] [(0, [Some 5; Some 0; Some 5])]);
+      mkO 1 [mkA 8 8 None 0 []; mkA 0 0 None 0 []] 8 8 [(0, 5); (1, 8)] [] [(0, [Some 0; Some 0; Some 5])]);
      ([], Advance 1, Ok 0,
-      mkO 2 [mkA 8 8 (Some 0%N) 8 [(0, 5); (1, 8)]; mkA 0 0 None 0 []] 8 8 [(0, 5); (1, 8)] [] [(0, [Some 8; Some 0; Some 8]); (1, [Some 8; Some 0; Some 8])])
+      mkO 2 [mkA 8 8 None 0 []; mkA 0 0 None 0 []] 8 8 [(0, 5); (1, 8)] [] [(0, [Some 0; Some 0; Some 8]); (1, [Some 0; Some 0; Some 8])])
     ]))) = 4%N.
 Proof. vm_compute. reflexivity. Qed.
 
@@ -334,7 +352,7 @@ Proof. vm_compute. reflexivity. Qed.
 Example C13_monitor_rejects_duplicate_ledger :
   snd (fst (check (bad_h,
     [([], Mint 0%N 5, Ok 0,
-      mkO 3 [mkA 5 5 (Some 0%N) 5 [(3, 2); (3, 5)]; mkA 0 0 None 0 []] 5 5 [(3, 5)] [] [])]))) = 1%N.
+      mkO 3 [mkA 5 5 None 0 []; mkA 0 0 None 0 []] 5 5 [(3, 2); (3, 5)] [] [])]))) = 1%N.
 Proof. vm_compute. reflexivity. Qed.
 
 (* the vote supply is not the sum of the units *)
@@ -342,4 +360,31 @@ Example C13_monitor_rejects_supply :
   snd (fst (check (bad_h,
     [([], Mint 0%N 5, Ok 0,
       mkO 3 [mkA 5 5 None 0 []; mkA 0 0 None 0 []] 5 6 [(3, 6)] [] [])]))) = 1%N.
+Proof. vm_compute. reflexivity. Qed.
+
+(* state lapses silently while 600000 ledgers pass (balance, units and the supply checkpoint all read 0
+   again - mutually consistent, and no past ledger is queried): only "nothing changes without a call" fails *)
+Example C13_monitor_rejects_silent_lapse :
+  snd (fst (check (bad_h,
+    [([], Mint 0%N 5, Ok 0,
+      mkO 0 [mkA 5 5 None 0 []; mkA 0 0 None 0 []] 5 5 [(0, 5)] [] []);
+     ([], Advance 600000, Ok 0,
+      mkO 600000 [mkA 0 0 None 0 []; mkA 0 0 None 0 []] 0 0 [] [] [])]))) = 2%N.
+Proof. vm_compute. reflexivity. Qed.
+
+(* ... and a failing call must leave no trace either *)
+Example C13_monitor_rejects_trace_of_failed_call :
+  snd (fst (check (bad_h,
+    [([], Mint 0%N 5, Ok 0,
+      mkO 0 [mkA 5 5 None 0 []; mkA 0 0 None 0 []] 5 5 [(0, 5)] [] []);
+     ([], Delegate 0%N 1%N, Fail,
+      mkO 0 [mkA 5 5 (Some 1%N) 0 []; mkA 0 0 None 5 [(0, 5)]] 5 5 [(0, 5)] [] [])]))) = 2%N.
+Proof. vm_compute. reflexivity. Qed.
+
+(* a delegatee appears although the account never called delegate (here it even keeps
+   "votes = delegated units" true) *)
+Example C13_monitor_rejects_spontaneous_delegation :
+  snd (fst (check (bad_h,
+    [([], Mint 0%N 5, Ok 0,
+      mkO 0 [mkA 5 5 (Some 1%N) 0 []; mkA 0 0 None 5 [(0, 5)]] 5 5 [(0, 5)] [] [])]))) = 1%N.
 Proof. vm_compute. reflexivity. Qed.
